@@ -32,6 +32,9 @@ func infoOf[T safemath.Integer]() typeInfo {
 		ti.min = big.NewInt(0)
 		ti.max = new(big.Int).Sub(new(big.Int).Lsh(big.NewInt(1), bits), big.NewInt(1))
 	}
+	if tn := fmt.Sprintf("%T", z); tn != ti.name {
+		ti.name = tn + " (" + ti.name + ")" // a defined type whose underlying type is the builtin one
+	}
 	return ti
 }
 
